@@ -302,6 +302,20 @@ def run(ctx):  # noqa: C901, PLR0912
     from . import common
     common.implied_value_only_for_none(ctx, 'C18.R3')
     common.readers_catch_only_absence(ctx, 'C18.R4')
+    common.readers_test_only_for_none(ctx, 'C18.R3')
+    snv = repo.funcs.get('sdc11073.consumer.serviceclients.setservice.SetServiceClient.set_numeric_value')
+    if snv is not None:
+        gsn = cfg_of(snv)
+        lossy = []
+        for nn in gsn.real_nodes():
+            fmt = [x for x in nn.walk() if isinstance(x, ast.FormattedValue) and x.format_spec is not None] + \
+                  [c for c in nn.calls() if call_name(c) in ('format', 'round', 'float')]
+            if fmt and not any(p is True and 'isinstance' in t and 'float' in t for t, p in gsn.facts_at(nn).both()):
+                lossy.append(nn.text()[:70])
+        ctx.ob('C18.R3', 'set_numeric_value hands a Decimal on exactly', not lossy,
+               'SetServiceClient.set_numeric_value formats / rounds only float arguments' if not lossy else
+               f'SetServiceClient.set_numeric_value formats the value outside the float branch ({lossy[:1]}): a Decimal or int with '
+               f'more significant digits than the format keeps changes its value on the way into RequestedNumericValue', fi=snv)
     # the value range of a timestamp is the one of xsd:unsignedLong: zero is a value (a device without a clock reports 0) - the
     # validity check rejects negative values only
     cv = repo.cls(f'{DC}.TimestampConverter').methods.get('check_valid')
